@@ -10,7 +10,9 @@ import CharsetProof.Props.C10b
 import CharsetProof.Props.C10c
 import CharsetProof.Props.C10d
 import CharsetProof.Props.C10e
+import CharsetProof.Props.C10f
 open Charset
+#print axioms targetLanguages_is_model
 #print axioms C10_tied_language_full
 #print axioms worldFull_coh_respects_include
 #print axioms Coh.coherenceRatio_respects_include
